@@ -2,7 +2,7 @@
    of /repo (or to a Go standard-library function the models rely on) and the outcome observed
    under recover() and a watchdog: Ok value / Err (an error was returned) / Panic / OutOfFuel
    (no result within the deadline).  The model must predict the class and, when Ok, the value. *)
-From LR Require Export lib.Base lib.DecLib model.DecXBinary model.DecKV model.DecFields model.DecUtf8 model.DecUnquote model.DecWire model.DecPos model.Json model.Formatter.
+From LR Require Export lib.Base lib.DecLib model.DecXBinary model.DecKV model.DecFields model.DecUtf8 model.DecUnquote model.DecWire model.DecPos model.Json model.Formatter model.DecTree.
 
 Local Open Scope Z_scope.
 
@@ -54,20 +54,20 @@ Inductive case :=
 Definition check (c : case) : bool :=
   match c with
   | KUint buf o => outcome_eqb (pair_eqb Z.eqb N.eqb) (unmarshal_uint buf) o
-  | KBytes buf o => outcome_eqb (pair_eqb Z.eqb bytes_eqb) (unmarshal_bytes buf) o
+  | KBytes buf o => outcome_eqb (pair_eqb Z.eqb bytes_eqb) (unmarshal_bytes_g tree_guard buf) o
   | KApiLe buf o =>
       outcome_eqb (pair_eqb Z.eqb ev4_eqb)
-        (omap (fun '(n, le) => (n, (a_ts le, a_msg le, a_tags le, a_flds le))) (unmarshal_api_le false buf)) o
+        (omap (fun '(n, le) => (n, (a_ts le, a_msg le, a_tags le, a_flds le))) (unmarshal_api_le tree_guard buf)) o
   | KQr buf o =>
       outcome_eqb (pair_eqb Z.eqb qr_eqb)
-        (omap (fun '(n, q) => (n, (q_id q, q_query q, q_pos q, (q_wait q, q_offset q, q_limit q)))) (unmarshal_qr false buf)) o
+        (omap (fun '(n, q) => (n, (q_id q, q_query q, q_pos q, (q_wait q, q_offset q, q_limit q)))) (unmarshal_qr tree_guard buf)) o
   | KWp buf o =>
       outcome_eqb (pair_eqb bytes_eqb (list_eqb ev3_eqb))
-        (omap (fun '(t, evs) => (t, map proj_le evs)) (wp_run false false go_unquote buf)) o
+        (omap (fun '(t, evs) => (t, map proj_le evs)) (wp_run tree_guard tree_fields_fx go_unquote buf)) o
   | KLeU prev buf o =>
       outcome_eqb (pair_eqb Z.eqb ev3_eqb)
-        (omap (fun '(n, le) => (n, proj_le le)) (le_unmarshal false {| le_ts := 0; le_msg := []; le_flds := prev |} buf)) o
-  | KFromKv s o => outcome_eqb bytes_eqb (fields_of_kv false go_unquote s) o
+        (omap (fun '(n, le) => (n, proj_le le)) (le_unmarshal tree_guard {| le_ts := 0; le_msg := []; le_flds := prev |} buf)) o
+  | KFromKv s o => outcome_eqb bytes_eqb (fields_of_kv tree_fields_fx go_unquote s) o
   | KCheck s o => outcome_eqb unit_eqb (check s) o
   | KValue f name o => outcome_eqb bytes_eqb (value f name) o
   | KAsKv qt f o => outcome_eqb bytes_eqb (as_kv (qlookup qt) f) o
